@@ -140,7 +140,9 @@ def run_verus_unit(name, prop, tier, keep=False):
             res["assumptions"].append("%s: %s [%s]" % (name, fn.group(1) if fn else ln.strip()[:40], tag or "UNTAGGED"))
     nlabel = count_labels(text, prop)
     nfun = len(u.functions)
-    res["obligations"] = nlabel + nfun
+    myscans = [s for s in u.scans if prop in s[0]]
+    res["scans"] = [dict(name=s[1], ok=s[2], desc=s[3]) for s in myscans]
+    res["obligations"] = nlabel + nfun + len(myscans)
     if vr.undecided:
         res["status"] = "undecided"
         res["undecided"] = vr.undecided
@@ -150,6 +152,11 @@ def run_verus_unit(name, prop, tier, keep=False):
         return res
     default_props = VERUS_UNITS[name][1]
     bad = 0
+    for s in myscans:
+        if not s[2]:
+            bad += 1
+            res["failures"].append(dict(engine="scan", unit=name, fn=s[1], label=",".join(s[0]), message="syntactic frame condition violated",
+                                        clause=s[3], extracted=None, key="scan:%s:%s" % (name, s[1]), rendered=s[3], path=path))
     for d in vr.diags:
         labels = re.split(r'[,\s]+', d["label"]) if d["label"] else None
         charged = (prop in labels) if labels else (prop in default_props)
@@ -260,7 +267,7 @@ def kani_playback(failure):
         g = kx.GROUPS[grp]
         spath = os.path.join(repo_copy, g["crate"], info["src"])
         with open(spath, "a") as f:
-            f.write('\n#[cfg(kani)]\n#[path = "%s"]\nmod verif_kani;\n' % hcopy)
+            f.write('\n#[cfg(kani)]\n#[path = "%s"]\npub(crate) mod verif_kani;\n' % hcopy)
         cmd = ["cargo", "kani", "playback", "-Z", "concrete-playback"]
         if g["features"]:
             cmd += ["--features", g["features"]]
